@@ -77,10 +77,15 @@ def gen_options(rng):
     return argv, dec, colour, tz_env
 
 
-def text_case(rng):
+def text_case(rng, bsz=65536):
     n = rng.choice((1, 2, 2, 3, 4))
-    srcs = merge.gen_sources(rng, n, 65536, max_msgs=rng.choice((2, 6, 15)), containers=("plain", "plain", "gz"),
-                             allow_degenerate=False, tie_heavy=True, blank_p=0.2)
+    if bsz != 65536:
+        # small read blocks: lines (and the timestamp inside them) reach the printer in several parts
+        srcs = merge.gen_sources(rng, n, bsz, max_msgs=rng.choice((2, 6, 15)), containers=("plain", "plain", "gz"),
+                                 allow_degenerate=False, tie_heavy=True, blank_p=0.2, first_line_max=min(60, bsz - 4), safe_sizes=(bsz,))
+    else:
+        srcs = merge.gen_sources(rng, n, 65536, max_msgs=rng.choice((2, 6, 15)), containers=("plain", "plain", "gz"),
+                                 allow_degenerate=False, tie_heavy=True, blank_p=0.2)
     names = rng.sample(NAMES, n)
     for s, nm in zip(srcs, names):
         ext = world.SUFFIX[s.container]
@@ -229,8 +234,11 @@ def run_case(seed, i, tier):
     plan.now = (1_600_000_000 + rng.randrange(0, 10**8), rng.randrange(10**9))
     sepb = decor.unescape_separator(dec.sep)
     if i % 3 != 2:
-        srcs = text_case(rng)
-        opts = argv + ["--tz-offset", "+00:00"]
+        bsz = rng.choice((65536, 65536, 64, 70, 100, 128, 256))
+        srcs = text_case(rng, bsz)
+        opts = argv + ["--tz-offset", "+00:00"] + (["--blocksz", str(bsz)] if bsz != 65536 else [])
+        if bsz != 65536:
+            cr.probes["small_read_blocks"] += 1
         merged = merge.model_merge(srcs)
         expected = decor.model_stdout(srcs, merged, dec)
         scn = merge.scenario_for(srcs, opts, tz_env)
